@@ -46,7 +46,28 @@ Print Assumptions C07_token_bounds.
    to the real parser token-for-token by the C13/C14/C07 plug-ins; proofs: Parse/ParserTotal.v.
    The model renders every place where the Rust code would panic or spin as the outcome [Panic]
    (`exprs.remove(0)` / `types.remove(0)` on an empty vector, the three `unreachable!()`, Context::prev
-   walking back into index 0 over comments) and running out of recursion fuel as [Fuel]. *)
+   walking back into index 0 over comments) and running out of recursion fuel as [Fuel].
+   Panic/spin sites of the parser and what happens to each:
+   - expression.rs grouping_or_tuple `exprs.remove(0)`, parser.rs parse_type `types.remove(0)`: [Panic] in the
+     model; unreachable because the tuple loops only return an empty non-tuple when `)` is NOT next, and then
+     the following expect!(RightParen) fails first (ParserTotal: tuple_pre / tuple_post).
+   - parser.rs:707 `unreachable!("Checked in parse_type_constraint_argument")`: [Panic] in the model; unreachable
+     because constraint_args only stops on `+` `,` `>` (cstop).
+   - statement.rs:623 `_ => unreachable!()` (implied definition): [Panic] in the model; unreachable because the
+     statement dispatch has already seen `::` or `:=` in that position (stmt_def_implied_ok).
+   - expression.rs:598 `unreachable!()` (infix kind map): the guard list and the kind map are one table in the
+     model; gen_prec.py refuses to translate (Untranslatable) when the two lists differ.
+   - Context::prev at index 0 on a comment (would spin): [Panic] in the model at its three uses (loop arm, span
+     of an implicit `use` name - twice for a path ending in '/', infix error path); unreachable because each caller
+     has consumed a non-comment token since ([ltm]).
+   - parser.rs detail_if_error! `unreachable!`: the macro is never used.  tokens_lookahead `res[i]`: i < N.
+   - statement.rs use: `file_stem().unwrap()`, `.to_str().unwrap()`, `file.parent().unwrap()`: path strings, outside
+     the token-level model ([last_component] is total); guarded for identifiers as the tokenizer produces them
+     (non-empty, no '/' or '.'), the path "/" alone being rejected just before.
+   - NOT guarded: Context::comments_since_last_statement computes `self.curr - self.last_statement`; the loop arm's
+     prev() can leave curr below last_statement (`if true do loop do break end end`): overflow-checked builds
+     panic there, release builds wrap (and read the first `end` twice).  The model has no last_statement and
+     follows the release build; reported as a finding (C14 probe loop-body-end-then-end-on-one-line). *)
 From Sylt Require Import Syntax.Tok Syntax.Ast Parse.PrecTable Parse.Parser Parse.ParserTotal.
 From Sylt Require Gen.GenPrec.
 
